@@ -154,6 +154,15 @@ def main():
                     h = pool.imap_unordered(functools.partial(
                         rtargets.rtask_map, script, tmpdir, tag), list(range(n)),
                         cs or 1)
+                if kind in ('imap', 'imap_unordered') and hasattr(h, '_ack'):
+                    # witness when the parent consumed each part's ACK
+                    def _wrap(h=h, tag=tag, orig=h._ack):
+                        def _ack(i, time_accepted, pid, *a):
+                            obs['jobs'][tag].setdefault('part_acks', []).append(
+                                [i, pid, time.monotonic()])
+                            return orig(i, time_accepted, pid, *a)
+                        return _ack
+                    h._ack = _wrap()
                 handles[tag] = (kind, h)
                 obs['jobs'][tag]['submitted'] = h is not None
                 obs['jobs'][tag]['t_submit'] = time.monotonic()
